@@ -65,22 +65,29 @@ theorem classify_reached (cfg : Cfg) (c : Conn) (f : Frame) (h : (classify cfg c
             | false => simp [ha, hs'] at hfw
 
 theorem authOutcome_done (acc : Authenticator) (f : Frame) (h : authOutcome acc f = .authReply 3) :
-    f.act = authenticateAction ∧ accepted acc f.payload = true := by
+    f.act = authenticateAction ∧ accepted acc f.payload = true ∧ (f.typ = 1 ∨ f.typ = 4) := by
   unfold authOutcome at h
   split at h
   · cases h
-  · rename_i ha
-    refine ⟨by simpa using ha, ?_⟩
-    unfold accepted
+  · rename_i hty
     split at h
     · cases h
-    · rename_i es he
-      split at h
-      · rename_i u t hc
+    · rename_i ha
+      refine ⟨by simpa using ha, ?_, ?_⟩
+      · unfold accepted
         split at h
-        · rename_i hacc; exact hacc
         · cases h
-      · cases h
+        · rename_i es he
+          split at h
+          · rename_i u t hc
+            split at h
+            · rename_i hacc; exact hacc
+            · cases h
+          · cases h
+      · simp at hty
+        by_cases h1 : f.typ = 1
+        · exact Or.inl h1
+        · exact Or.inr (hty h1)
 
 theorem inv_connect (cfg : Cfg) (s : Srv) (hi : Inv cfg s) : Inv cfg (connect s) := by
   refine ⟨?_, ?_⟩
@@ -189,7 +196,7 @@ theorem inv_process (cfg : Cfg) (s : Srv) (hi : Inv cfg s) : Inv cfg (process cf
         rcases setConn_get s.conns k j _ cj hj with ⟨_, h⟩ | ⟨rfl, c', hc', rfl⟩
         · exact hi.authJust j cj h ha
         · rw [hc] at hc'; injection hc' with hc'; subst hc'
-          obtain ⟨h1, h2⟩ := authOutcome_done cfg.acc f hev'
+          obtain ⟨h1, h2, _⟩ := authOutcome_done cfg.acc f hev'
           exact ⟨f, hf, hs0, ho0, h1, h2⟩
       · exact hi.authJust j cj hj ha
     · intro p hp
@@ -242,6 +249,12 @@ theorem refused_and_closed (cfg : Cfg) (c : Conn) (f : Frame) (ha : c.auth = fal
   constructor
   · simp [classify, ha, hc, hb, ht, hs]
   · intro g; simp [classify]
+
+/-- service 0 runs its method for calls and posts only: a frame of any other kind, whatever it
+    carries (accepted credentials included), authenticates nothing -/
+theorem only_calls_authenticate (acc : Authenticator) (f : Frame) (h : f.typ ≠ 1 ∧ f.typ ≠ 4) :
+    authOutcome acc f = .silent := by
+  simp [authOutcome, h.1, h.2]
 
 /-- a type byte that is not a message type closes the connection, whatever its state -/
 theorem bad_type_closes (cfg : Cfg) (c : Conn) (f : Frame) (hc : c.closed = false) (hb : badType f.typ = true) :
